@@ -271,6 +271,10 @@ def check(ctx):
     ctx.floor("C15-R4", "system function that calls cancel()", len(tc), 1)
     for f in tc:
         ctx.instance("C15-R4", f.fq)
+        from ..common import handle_type_accepted
+        found, accepted, bad = handle_type_accepted(f, hcls)
+        ctx.ob("C15-R4", f.fq, f"a {hcls} value (what .timer returns) is accepted as given by .timerc", found and accepted, node=f.node, construct="timerc accepts the handle timer returns",
+               msg=f".timerc only looks for the handle under `{bad}`: the object .timer returns is not of that kind")
         p = f.params()
         for r in [n for n in walk_local(f.node) if isinstance(n, ast.Return)]:
             v = r.value
